@@ -1,19 +1,21 @@
 #!/bin/bash
-# usage: tools/seedtest.sh <patch.diff> <Cnn> [<Cnn>...]   -- applies the seeded change to /repo, runs the quick checks, undoes it
+# usage: tools/seedtest.sh <patch.diff> <Cnn> [<Cnn>...]
+# Runs the quick checks against a scratch worktree of /repo with the seeded change applied (VERIF_REPO): /repo
+# itself is never modified, so other checks may build from it at the same time.  The harness is rebuilt for the
+# scratch tree (first check of a seed: a few minutes).
 set -u
-patch=$1; shift
-cd /repo || exit 2
-if ! git diff --quiet; then echo "repo not clean"; exit 2; fi
-git apply "$patch" || { echo "patch does not apply"; exit 2; }
+patch=$(readlink -f "$1"); shift
+wt=/tmp/seedrepo-$$
+git -C /repo worktree add -q --detach $wt HEAD || exit 2
+trap 'git -C /repo worktree remove --force '$wt' 2>/dev/null; git -C /repo worktree prune' EXIT
+git -C $wt apply "$patch" || { echo "patch does not apply"; exit 2; }
 cd /verif
 for p in "$@"; do
-  # evidence must describe the unchanged tree: keep it aside while a seeded change is applied
-  [ -f evidence/$p.json ] && cp evidence/$p.json /verif/out/evidence-$p.keep
-  out=$(python3 check.py "$p" --tier ${TIER:-quick} 2>&1); rc=$?
-  [ -f /verif/out/evidence-$p.keep ] && mv /verif/out/evidence-$p.keep evidence/$p.json
+  # evidence must describe the unchanged tree: keep it aside while a seeded change is checked
+  [ -f evidence/$p.json ] && cp evidence/$p.json /verif/out/evidence-$p.keep.$$
+  out=$(VERIF_REPO=$wt python3 check.py "$p" --tier ${TIER:-quick} 2>&1); rc=$?
+  [ -f /verif/out/evidence-$p.keep.$$ ] && mv /verif/out/evidence-$p.keep.$$ evidence/$p.json
   nv=$(echo "$out" | grep -c '^VIOLATION')
   echo "== $p rc=$rc violations=$nv"
   echo "$out" | grep -E '^VIOLATION|KNOWN-FINDING|TOOL-ERROR' | head -${SHOW:-4} | cut -c1-260
 done
-git -C /repo checkout -- . 
-git -C /repo status --short | head
